@@ -303,6 +303,60 @@ func LazySlice[E, S any](gen func(*S) []E, s *S) []E {
 }
 func PeekSlice[E, S any](cell *[]E) *S { return nil }
 
+func JSONDoc(class int, keys, vals []int, bad int) []byte {
+	elem := func(i int) string {
+		if i == bad {
+			return `"x"`
+		}
+		return strconv.Itoa(vals[i])
+	}
+	switch class {
+	case 0:
+		return []byte(`[1,`)
+	case 1:
+		return []byte(``)
+	case 2:
+		return []byte(`null`)
+	case 3:
+		return []byte(`7`)
+	case 4:
+		var parts []string
+		for i := range vals {
+			parts = append(parts, elem(i))
+		}
+		return []byte("[" + strings.Join(parts, ",") + "]")
+	case 5:
+		var parts []string
+		for i := range vals {
+			parts = append(parts, `"`+strconv.Itoa(keys[i])+`":`+elem(i))
+		}
+		return []byte("{" + strings.Join(parts, ",") + "}")
+	}
+	panic(diverged{"unknown json class"})
+}
+
+func JSONKind(data []byte) int {
+	if !json.Valid(data) {
+		return 0
+	}
+	s := strings.TrimSpace(string(data))
+	switch {
+	case s == "null":
+		return 2
+	case strings.HasPrefix(s, "["):
+		return 4
+	case strings.HasPrefix(s, "{"):
+		return 5
+	}
+	return 3
+}
+
+var trackSnap string
+var trackRoots []any
+
+func Track(rs ...any) { trackRoots = rs; trackSnap = fingerprint(rs) }
+func Changed() bool  { return fingerprint(trackRoots) != trackSnap }
+
 // JSONInput builds concrete bytes for the input class the model chose (see Appendix B of DESIGN.md).
 func JSONInput(tag string) []byte {
 	n := name(tag)
